@@ -359,7 +359,10 @@ def i_conv(v, fbits, fsigned, tbits, tsigned):
     if tbits < fbits:
         return _cv(z3.Extract(tbits - 1, 0, v), tbits, tsigned)
     r = z3.SignExt(tbits - fbits, v) if fsigned else z3.ZeroExt(tbits - fbits, v)
-    if not fsigned:
+    su, sl = get_ub(v), get_lb(v)
+    if su is not None and su < (1 << (fbits - 1)):
+        set_ub(r, su, sl or 0)
+    elif not fsigned:
         set_ub(r, mask(fbits))
     return r
 
@@ -515,13 +518,27 @@ def s_concat(a, b):
 
 
 def s_concat_all(parts):
-    parts = [p for p in parts]
+    """balanced concatenation (keeps the shifter depth logarithmic)"""
+    parts = [p for p in parts if not (is_c(p.ln) and p.ln == 0)]
     if not parts:
         return EMPTY
-    r = parts[0]
-    for p in parts[1:]:
-        r = s_concat(r, p)
-    return r
+    # first glue runs of concrete-length pieces (free)
+    glued = []
+    for p in parts:
+        if glued and is_c(glued[-1].ln) and is_c(p.ln):
+            q = glued[-1]
+            glued[-1] = Str(q.b[:q.ln] + p.b[:p.ln], q.ln + p.ln)
+        else:
+            glued.append(p)
+    parts = glued
+    while len(parts) > 1:
+        nxt = []
+        for i in range(0, len(parts) - 1, 2):
+            nxt.append(s_concat(parts[i], parts[i + 1]))
+        if len(parts) % 2:
+            nxt.append(parts[-1])
+        parts = nxt
+    return parts[0]
 
 
 def s_substr(s, lo, hi):
